@@ -4,6 +4,7 @@ CONSTANTS
  NBk = 3
  Inits <- HInits
  InoutInits <- HInits
+ DevInits <- HInits
  RouteInits <- HInits
  Runs = 2
  QueuePersists = TRUE
@@ -18,6 +19,7 @@ CONSTANTS
  DevLinkDirect = FALSE
  DevBackupCount = FALSE
  DevInplaceInput = FALSE
+ DevMoveBeforeClose = FALSE
  DevRouteDiscard = FALSE
 INVARIANT BoundOK
 INVARIANT ExportInv
